@@ -484,8 +484,12 @@ def run(ctx):
     todo = [(k, s) for k in kinds for s in range(per_kind)]
     if getattr(ctx, 'replay_obj', None):
         r = ctx.replay_obj['replay']
+        if r.get('op') == 'accounts':
+            return run_accounts(ctx, only=r['hseed'])
         todo = [(r['kind'], r['hseed'])]
         nops = r.get('nops', nops)
+    else:
+        run_accounts(ctx)
     for kind, hseed in todo:
         h = History(ctx, kind, hseed, nops)
         h.run()
@@ -507,8 +511,123 @@ def run(ctx):
             ctx.evals += 1
             if m != ins + '/' + outs:
                 ctx.violation('model and wallet disagree about a stored transaction', {'kind': kind, 'hseed': hseed, 'nops': nops, 'op': 'ledger_tx', 'model': m, 'observed': ins + '/' + outs})
-    ctx.assumptions += ['the service layer is an in-process fake (push succeeds or fails as scripted); one network and one account per wallet',
+    ctx.assumptions += ['the service layer is an in-process fake (push succeeds or fails as scripted); one network per wallet; wallets with two accounts pay to outside addresses only (an account is then a ledger of its own)',
                         'transaction ids and key ids are renamed to small integers before the comparison']
+
+
+def run_accounts(ctx, only=None):
+    """wallets with two accounts, either of them the default one: as long as payments go to outside addresses every account is a ledger
+    of its own - the ledger machine is run once per account, and an operation on one account is a plain balance() for the other"""
+    import random
+    from bitcoinlib.wallets import Wallet, WalletError
+    from bitcoinlib.keys import HDKey
+    for hseed in ([only] if only is not None else range(2 if not ctx.thorough else 8)):
+        rng = random.Random('%s/accounts/%s' % (ctx.seed, hseed))
+        wt = rng.choice(['segwit', 'legacy', 'p2sh-segwit'])
+        accts = [0, 1] if hseed % 2 == 0 else [1, 0]            # the first one is the wallet's default account
+        db = 'sqlite:///' + os.path.join(os.environ['BCL_DATA_DIR'], 'c08_accounts_%s_%s.sqlite' % (ctx.seed, hseed))
+        box = {'w': Wallet.create('w', keys=HDKey.from_seed(bytes(rng.randrange(256) for _ in range(32)), witness_type=wt), witness_type=wt,
+                                  network='bitcoin', db_uri=db, account_id=accts[0])}
+        box['w'].new_account(account_id=accts[1])
+        ops, obs, descr, known, txids = {a: [] for a in accts}, {a: [] for a in accts}, [], {a: set() for a in accts}, {}
+
+        def tid(h):
+            txids.setdefault(h, len(txids) + 1)
+            return txids[h]
+
+        def leaf_keys(a):
+            return [k for k in box['w'].keys(account_id=a) if k.depth == box['w'].key_depth]
+
+        def sync():
+            for a in accts:
+                for k in box['w'].keys(account_id=a):
+                    if k.id not in known[a]:
+                        known[a].add(k.id)
+                        ops[a].append('key.%d' % k.id)
+                        obs[a].append(None)
+
+        def observe(a):
+            w = box['w']
+            ut = sorted((tid(u['txid']), u['output_n'], u['value']) for u in w.utxos(account_id=a))
+            bal = w.balance(account_id=a)
+            kb = sorted((k.id, int(k.balance)) for k in w.keys(account_id=a) if k.balance)
+            return 'ok/%d/%s/%s' % (int(bal), ','.join('%d-%d-%d' % x for x in ut), ','.join('%d-%d' % x for x in kb))
+
+        def record(a, op, text):
+            sync()
+            descr.append('account %d: %s' % (a, text))
+            for b_ in accts:
+                ops[b_].append(op if b_ == a else 'bal')
+                obs[b_].append((len(descr) - 1, observe(b_)))
+
+        box['w'].get_key(account_id=accts[0]); box['w'].get_key(account_id=accts[1])
+        sync()
+        nops = 10 if not ctx.thorough else 30
+        for step in range(nops):
+            a = rng.choice(accts) if step >= 2 else accts[step]
+            w = box['w']
+            r = rng.random()
+            have = bool(w.utxos(account_id=a))
+            forced_sweep = step == nops - 3 and bool(w.utxos(account_id=accts[1]))
+            if forced_sweep:
+                a, r, have = accts[1], 0.7, True           # once per history: the account that is not the default one consolidates
+            try:
+                if r < 0.35 or not have:
+                    if rng.random() >= 0.6:
+                        w.new_key(account_id=a)
+                        k = leaf_keys(a)[-1]
+                    else:
+                        k = rng.choice(leaf_keys(a))
+                    txid, n, val, conf = '%064x' % rng.getrandbits(200), rng.choice([0, 1, 3]), rng.choice([10000, 123456, 10 ** 6, 2 * 10 ** 8]), rng.choice([0, 1, 6])
+                    w.utxo_add(k.address, val, txid, n, confirmations=conf)
+                    record(a, 'add.%d.%d.%d.%d.%d' % (k.id, val, tid(txid), n, conf), 'utxo_add(key %d, %d)' % (k.id, val))
+                elif r < 0.8:
+                    avail = sum(u['value'] for u in w.utxos(account_id=a))
+                    if r < 0.65:
+                        t = w.send_to(EXT[wt], max(600, avail // rng.choice([2, 3, 10])), account_id=a, fee=rng.choice([500, 2000]), broadcast=True, min_confirms=0)
+                        what = 'send_to(account_id=%d)' % a
+                    else:
+                        own = forced_sweep or rng.random() < 0.6          # consolidation: everything to one key of the same account
+                        t = w.sweep(rng.choice(leaf_keys(a)).address if own else EXT[wt], account_id=a, fee=1000, broadcast=True, min_confirms=0)
+                        what = 'sweep(%s, account_id=%d)' % ('own key' if own else 'outside', a)
+                    PUSH['accepted'] = []
+                    ctx.count('accounts:' + what.split('(')[0] + (':default-account' if a == accts[0] else ':other-account'))
+                    if t.pushed:
+                        sync()
+                        a2k = {k.address: k.id for b_ in accts for k in w.keys(account_id=b_) if k.address}
+                        ins = ','.join('%d-%d-%d' % (tid(i.prev_txid.hex()), i.output_n_int, i.value) for i in t.inputs)
+                        outs = ','.join('%d-%s' % (o.value, a2k.get(o.address, 'x')) for o in t.outputs)
+                        record(a, 'send.%d.%s.%s' % (tid(t.txid), ins, outs), what + ' -> pushed')
+                    else:
+                        record(a, 'bal', what + ' -> not pushed')
+                else:
+                    box['w'] = Wallet('w', db_uri=db)
+                    descr.append('close + reopen')
+                    for b_ in accts:
+                        ops[b_].append('reopen')
+                        obs[b_].append((len(descr) - 1, observe(b_)))
+            except WalletError as e:
+                record(a, 'bal', 'refused: ' + str(e)[:60])
+        ctx.traces += 1
+        ctx.nontrivial.add(hash(('accounts', hseed, len(txids))))
+        for a in accts:
+            res = run_driver(['ledger ' + ';'.join(ops[a])])[0]
+            if res == 'bad-op':
+                raise Infra('driver rejected: ' + ';'.join(ops[a])[:200])
+            model = res.split(' | ')[0].split(';')
+            for op, ob, m in zip(ops[a], obs[a], model):
+                if ob is None:
+                    continue
+                ctx.evals += 1
+                ctx.count('accounts-op:' + op.split('.')[0])
+                if ob[1] != m:
+                    ctx.violation('the ledger of one account of a wallet with two accounts disagrees with the ledger machine (balance = sum of unspent = sum of per-key balances)',
+                                  {'op': 'accounts', 'hseed': hseed, 'account': a, 'default_account': accts[0], 'witness_type': wt, 'model_op': op, 'model': m, 'observed': ob[1],
+                                   'history': descr[:ob[0] + 1], 'format': 'status/balance/utxos(txid#-n-value)/per-key balances(key id-value)'})
+                    break
+            else:
+                continue
+            break
 
 
 def replay(ctx, obj):
